@@ -22,7 +22,7 @@ from ..runner import Obligation
 from ..stubs import (ORS, SIGMA_2C, SIGMA_FULL, LazyAgent, SymRng, _LAZY, alphabet,
                      held_item, lazy_grid, lazy_state, pre_held, same_object)
 from ..symx import SymBool, sym_and
-from .common import ACTIONS, CHAINS, SINGLE, post_cells, shapes, transition
+from .common import ACTIONS, CHAINS, SINGLE, held_touched, post_cells, shapes, transition
 
 PROPERTY = 'C01'
 LEVEL = 'other'
@@ -92,9 +92,9 @@ def state_member_touched(sx, H, W, types, colors, st, label):
     p = st.agent.position
     sx.check(sym_and(0 <= p.y, p.y < H, 0 <= p.x, p.x < W), label + '-agent-in-grid')
     sx.check(isinstance(st.agent.orientation, Orientation), label + '-orientation')
-    for k, o in st.grid.objects.cells.items():
+    for k, o in post_cells(st).items():
         sx.check(type(o) in types and o.color in colors, label + '-cell-declared', f'{k}: {o!r}')
-    if st.agent.held_touched():
+    if held_touched(st):
         g = st.agent.grid_object
         sx.check((type(g) in types or isinstance(g, NoneGridObject)) and g.color in colors, label + '-held-declared', repr(g))
 
